@@ -14,7 +14,7 @@ out.append(f"\tgithub.com/openGemini/openGemini => {repo}")
 out.append(f"\tgithub.com/VictoriaMetrics/VictoriaMetrics => {repo}/lib/util/lifted/VictoriaMetrics")
 out.append(f"\tgithub.com/influxdata/influxdb => {repo}/lib/util/lifted/influxdb")
 out.append(")")
-hdir = os.path.join(os.path.dirname(os.path.abspath(__file__)), "..", "harness")
+hdir = os.environ.get("VERIF_HARNESS_DIR") or os.path.join(os.path.dirname(os.path.abspath(__file__)), "..", "harness")
 open(os.path.join(hdir, "go.mod"), "w").write("\n".join(out) + "\n")
 shutil.copy(f"{repo}/go.sum", os.path.join(hdir, "go.sum"))
 print("go.mod generated for go", gover)
